@@ -10,7 +10,40 @@ import numpy as np
 
 from harness.core import f2b, flist, parse_flist, b2f
 
-MODEL_MODULES = ['SkyllhModel.Model.Livetime']
+MODEL_MODULES = ['SkyllhModel.Model.Livetime', 'SkyllhModel.Model.LivetimeR7']
+
+# which Python callables have an executable Lean counterpart that the theorems are about and that run(ctx) compares with them
+MODEL_MAP = {
+    'skyllh/core/livetime.py::Livetime.assert_mjd_intervals_integrity': ['LivetimeR7.assertIntegrity', 'Livetime.integrity'],
+    'skyllh/core/livetime.py::Livetime.__init__': ['LivetimeR7.construct'],
+    'skyllh/core/livetime.py::Livetime.uptime_mjd_intervals_arr': ['LivetimeR7.construct', 'Livetime.objStep'],
+    'skyllh/core/livetime.py::Livetime.n_uptime_mjd_intervals': ['LivetimeR7.nIntervals'],
+    'skyllh/core/livetime.py::Livetime.livetime': ['Livetime.livetimeSeq'],
+    'skyllh/core/livetime.py::Livetime.time_window': ['LivetimeR7.timeWindow'],
+    'skyllh/core/livetime.py::Livetime.time_start': ['LivetimeR7.timeStart'],
+    'skyllh/core/livetime.py::Livetime.time_stop': ['LivetimeR7.timeStop'],
+    'skyllh/core/livetime.py::Livetime.get_integrated_livetime': ['LivetimeR7.integratedLivetime'],
+    'skyllh/core/livetime.py::Livetime.get_uptime_intervals_between': ['Livetime.betweenIdx', 'Livetime.betweenCore', 'Livetime.betweenSpec'],
+    'skyllh/core/livetime.py::Livetime.get_livetime_upto': ['Livetime.upto', 'Livetime.cumOntime', 'LivetimeR7.uptoVec', 'LivetimeR7.uptoArg'],
+    'skyllh/core/livetime.py::Livetime.is_on': ['Livetime.isOn', 'LivetimeR7.isOnVec'],
+    'skyllh/core/livetime.py::Livetime.draw_ontimes': ['Livetime.drawOn', 'Livetime.drawWin', 'LivetimeR7.drawMany'],
+    'skyllh/core/dataset.py::get_data_subset': ['Livetime.dataSubset', 'Livetime.subsetMask', 'LivetimeR7.dataSubsetFull'],
+    'skyllh/i3/livetime.py::I3Livetime.from_grl_data': ['Livetime.fromGrl'],
+    'skyllh/i3/livetime.py::I3Livetime.from_grl_files': ['LivetimeR7.fromGrlFiles'],
+    'skyllh/i3/livetime.py::I3Livetime.from_I3Dataset': ['LivetimeR7.fromI3Dataset'],
+    'skyllh/analyses/i3/publicdata_ps/utils.py::clip_grl_start_times': ['Livetime.clipStarts', 'Livetime.clipFrom'],
+    'skyllh/core/times.py::LivetimeTimeGenerationMethod.generate_times': ['Livetime.generateTime'],
+    'skyllh/core/times.py::TimeGenerator.generate_times': ['Livetime.generateTime'],
+}
+
+R7_KINDS = ('assertint', 'construct', 'props', 'intlt', 'isonv', 'uptoarg', 'drawmany', 'grlfiles', 'i3ds', 'subsetfull', 'hist')
+
+
+def generated(ctx):
+    """Generated/C14.lean: the shape constants, `right=` flags, None defaults, comparison operators and the order of the raised
+    exception classes, read from the current source (Props/C14.lean proves `..._for_current_source` lemmas about them)."""
+    from harness import c14_r7_fixtures as r7
+    return r7.generated_text(ctx)
 
 
 # ------------------------------------------------------------------------------------------
@@ -212,7 +245,35 @@ def arg_forms(t):
     return forms
 
 
+def provenance_of(ivs):
+    """how the caller obtained the Livetime object it queries (round 7; a pure function of the interval values, so a replay rebuilds
+    it): 0 fresh from the constructor, 1 copy.copy, 2 copy.deepcopy, 3 pickle round trip, 4 a fresh object whose intervals were
+    assigned through the public setter (constructed on a placeholder first)"""
+    import zlib
+    return zlib.crc32(('prov' + repr(ivs)).encode()) % 5
+
+
 def mk(ivs):
+    lt = _mk_fresh(ivs)
+    prov = provenance_of(ivs)
+    if prov == 1:
+        import copy
+        return copy.copy(lt)
+    if prov == 2:
+        import copy
+        return copy.deepcopy(lt)
+    if prov == 3:
+        import pickle
+        return pickle.loads(pickle.dumps(lt))
+    if prov == 4:
+        from skyllh.core.livetime import Livetime
+        other = Livetime(np.array([[-1.0, 1.0], [5.0, 7.5]]))
+        other.uptime_mjd_intervals_arr = lt.uptime_mjd_intervals_arr
+        return other
+    return lt
+
+
+def _mk_fresh(ivs):
     from skyllh.core.livetime import Livetime
     if layout_of(ivs) == 4 and len(ivs) > 0:
         from skyllh.i3.livetime import I3Livetime
@@ -436,6 +497,18 @@ def o_between(ctx, case):
 def o_upto(ctx, case):
     ivs, ts = case['ivs'], case['ts']
     lt = mk(ivs)
+    if case.get('via') == 'subset':
+        # the Livetime that get_data_subset hands back for a window (round 7: windows without on-time give a Livetime without intervals)
+        from skyllh.core.dataset import DatasetData, get_data_subset
+        from skyllh.core.storage import DataFieldRecordArray
+        exp = DataFieldRecordArray({'time': np.array(ts, dtype=np.float64)}, copy=True)
+        (t0, t1) = case['win']
+        try:
+            (_, lt) = get_data_subset(DatasetData(data_exp=exp, data_mc=exp.copy(), livetime=lt.livetime), lt, t0, t1)
+        except Exception as e:  # noqa
+            return 'get_data_subset(%r, %r) on %r raised %s: %s' % (t0, t1, ivs, type(e).__name__, e)
+        ivs = [(float(lo), float(hi)) for lo, hi in ref_intersection(ivs, t0, t1)] if all(np.isfinite([t0, t1])) else \
+            [(float(a), float(b)) for a, b in np.asarray(lt.uptime_mjd_intervals_arr)]
     tot = sum(abs(b - a) for a, b in ivs) + 1e-300
     for t in ts:
         try:
@@ -702,6 +775,9 @@ def o_corr(ctx, case):
 
 def _corr_lines(case):
     k = case['kind']
+    if k in R7_KINDS:
+        from harness import c14_r7_fixtures as r7
+        return r7.lines(case)
     ivs = case['ivs']
     es = flist([x for p in ivs for x in p])
     if k == 'ison':
@@ -784,6 +860,9 @@ def _corr_lines(case):
 
 def _corr_compare(case, impl, model):
     k = case['kind']
+    if k in R7_KINDS:
+        from harness import c14_r7_fixtures as r7
+        return r7.compare(case, impl, model)
     if k == 'between':
         idx, spec = [x.split(':', 1)[1] for x in model.split(' ')]
         if impl != idx:
@@ -810,15 +889,38 @@ def _corr_compare(case, impl, model):
 ORACLES = {
     'is_on': o_is_on, 'between': o_between, 'upto': o_upto, 'draw': o_draw, 'subset': o_subset,
     'integrity': o_integrity, 'corr': o_corr, 'history': o_history, 'alias': o_alias, 'grl': o_grl,
+    'loader': lambda ctx, case: __import__('harness.c14_r7_fixtures', fromlist=['o_loader']).o_loader(ctx, case),
+    'props': lambda ctx, case: __import__('harness.c14_r7_fixtures', fromlist=['o_props']).o_props(ctx, case),
+    'guard': lambda ctx, case: __import__('harness.c14_r7_fixtures', fromlist=['o_guard']).o_guard(ctx, case),
 }
 
 # which property oracle looks at the same behaviour as a correspondence kind
 _ORACLE_OF_KIND = {'ison': 'is_on', 'between': 'between', 'upto': 'upto', 'draw': 'draw', 'drawwin': 'draw', 'gentime': 'draw', 'subset': 'subset', 'integ': 'integrity',
-                   'clip': 'grl', 'grl': 'grl', 'grlclip': 'grl'}
+                   'clip': 'grl', 'grl': 'grl', 'grlclip': 'grl',
+                   'assertint': 'guard', 'construct': 'guard', 'props': 'props', 'intlt': 'props', 'isonv': 'props', 'uptoarg': 'upto',
+                   'drawmany': 'draw', 'hist': 'history', 'grlfiles': 'loader', 'i3ds': 'loader', 'subsetfull': 'subset'}
 
 
 def _oracle_case_for(case):
     k = case['kind']
+    if k == 'hist':
+        sets = [case['ivs']] + [[(o['data'][i], o['data'][i + 1]) for i in range(0, len(o['data']) - 1, 2)] for o in case['ops']
+                                if o['op'] == 'set' and o['data']]
+        hts = [o['t'] for o in case['ops'] if 't' in o] or [0.0]
+        return {'sets': sets, 'ts': hts, 'wins': [(o['a'], o['b']) for o in case['ops'] if o['op'] == 'btw'] or [(float('-inf'), float('inf'))],
+                'us': [0.0, 0.3, 0.77]}
+    if k in ('grlfiles', 'i3ds'):
+        return {'files': case['files'] or [[list(p) for p in case['ivs']]]}
+    if k in ('assertint', 'construct'):
+        return {'nd': case['nd'], 'dt': case['dt'], 'shape': case['shape'], 'data': case['data']}
+    if k in ('props', 'intlt', 'isonv'):
+        return {'ivs': case['ivs'] or [(0.0, 1.0)], 'ts': case.get('ts') or [x for p in case['ivs'] for x in p]}
+    if k == 'uptoarg':
+        return {'ivs': case['ivs'], 'ts': case['ts']}
+    if k == 'drawmany':
+        return {'ivs': case['ivs'], 'us': case['us'] or [0.5], 't0': case['a0'], 't1': case['a1']}
+    if k == 'subsetfull':
+        return {'ivs': case['ivs'], 'times': case['exp'] + case['mc'], 't0': case['t0'], 't1': case['t1']}
     if k == 'ison':
         return {'ivs': case['ivs'], 'ts': [case['t']]}
     if k == 'between':
@@ -848,7 +950,8 @@ def run(ctx):
     ctx.trusted_base += ['correspondence harness harness/props/c14.py (bit-exact comparison)',
                          'numpy.digitize / cumsum semantics re-implemented in Model/Livetime.lean',
                          'IEEE rounding is outside the theorems (ordered-field statements)']
-    ctx.assumptions += ['interval arrays satisfy assert_mjd_intervals_integrity (non-decreasing edges)',
+    ctx.assumptions += ['array descriptions handed to the modelled integrity check have as many elements as the product of their shape (numpy invariant; C14R7.WfDesc)',
+                        'interval arrays satisfy assert_mjd_intervals_integrity (non-decreasing edges)',
                         'windows have t_start <= t_end']
     n_sets = ctx.n(60, 1500)
     cases = []
@@ -857,6 +960,8 @@ def run(ctx):
         ivs = gen_intervals(rng)
         ts = interesting_times(rng, ivs)
         ctx.count('n_intervals=%s' % (len(ivs) if len(ivs) < 6 else '6+'))
+        ctx.count('provenance:%s' % ['fresh', 'copy', 'deepcopy', 'pickle', 'setter-on-other'][provenance_of(ivs)])
+        ctx.count('layout:%d' % layout_of(ivs))
         oracle_cases.append(('is_on', {'ivs': ivs, 'ts': ts}))
         oracle_cases.append(('upto', {'ivs': ivs, 'ts': rng.sample(ts, min(len(ts), 8))}))
         for t in rng.sample(ts, min(len(ts), 10)):
@@ -956,6 +1061,21 @@ def run(ctx):
             edges[k], edges[k + 1] = edges[k + 1], edges[k]
         oracle_cases.append(('integrity', {'edges': edges}))
         cases.append({'kind': 'integ', 'ivs': ivs, 'edges': edges})
+        # round 7: the widened model (all raising branches of the integrity check, read-only properties, vector forms, good-run-list
+        # files and datasets, get_data_subset with guards) + the loader oracle
+        from harness import c14_r7_fixtures as r7
+        r7cases = r7.gen_cases(ctx, rng, ivs, ts, sts, [0.0, float(np.nextafter(1.0, 0.0)), 0.5] + [rng.random() for _ in range(4)])
+        cases += r7cases
+        oracle_cases.append(('props', {'ivs': ivs, 'ts': rng.sample(ts, min(len(ts), 5))}))
+        # cumulative live time on the Livetime get_data_subset returns (windows with and without on-time)
+        wsel = [w_ for w_ in _directed_windows(rng, ivs) if all(np.isfinite(w_))]
+        if wsel:
+            oracle_cases.append(('upto', {'ivs': ivs, 'ts': rng.sample(ts, min(len(ts), 4)), 'via': 'subset', 'win': list(rng.choice(wsel))}))
+        for c_ in r7cases:
+            if c_['kind'] in ('assertint', 'construct') and rng.random() < 0.5:
+                oracle_cases.append(('guard', {'nd': c_['nd'], 'dt': c_['dt'], 'shape': c_['shape'], 'data': c_['data']}))
+        if rng.random() < ctx.n(0.35, 0.5):
+            oracle_cases.append(('loader', {'files': [c_ for c_ in r7cases if c_['kind'] == 'grlfiles'][0]['files']}))
         # histories on one object (public setter between query rounds) and aliasing of handed-out arrays
         if rng.random() < ctx.n(0.5, 0.5):
             sets = [ivs] + [gen_intervals(rng, n=rng.choice([1, 2, 3, len(ivs)])) for _ in range(rng.choice([1, 2]))]
@@ -983,9 +1103,14 @@ def run(ctx):
     suspicious = []
     for c, i, m in zip(cases, impls, models):
         ctx.case(nontrivial=True, key=(c['kind'], c['ivs'], c.get('t'), c.get('t0'), c.get('t1'), c.get('u'), c.get('a0'), c.get('a1'),
-                                       c.get('starts'), c.get('stops')),
+                                       c.get('starts'), c.get('stops'),
+                                       repr(sorted((k_, v_) for k_, v_ in c.items() if k_ not in ('kind', 'ivs'))) if c['kind'] in R7_KINDS else None),
                  desc=c if ctx.evaluations % 997 == 0 else None)
         ctx.count('corr:' + c['kind'])
+        if c['kind'] in R7_KINDS:
+            br = r7.branch_of(c, m)
+            for b_ in (br if isinstance(br, list) else [br]):
+                ctx.count('r7-branch:' + b_)
         d = _corr_compare(c, i, m)
         if d:
             suspicious.append((c, i, m, d))
@@ -1004,6 +1129,13 @@ def run(ctx):
             continue
         seen.add(k)
         name = _ORACLE_OF_KIND[k]
+        if k == 'hist' and any(o['op'] == 'set' and o['variant'] == 'empty' for o in c['ops']):
+            # a history that went through a Livetime without intervals: look at that state first
+            oc0 = {'ivs': [], 'ts': [o['t'] for o in c['ops'] if 't' in o] or [0.0]}
+            res0 = o_upto(ctx, oc0)
+            if res0:
+                ctx.violation('upto', oc0, res0, impl_output=i, model_output=m, signature='C14/upto/%s' % _classify('upto', oc0, res0))
+                continue
         res = ORACLES[name](ctx, _oracle_case_for(c))
         if res:
             ctx.violation(name, _oracle_case_for(c), res, impl_output=i, model_output=m,
@@ -1016,6 +1148,15 @@ def run(ctx):
 
 
 def _classify(name, case, res):
+    if name == 'upto' and 'raised' in res and (not case['ivs'] or (case.get('via') == 'subset' and not ref_intersection(case['ivs'], *case['win']))):
+        import re
+        return 'livetime-without-intervals/raises-' + re.search(r'raised (\w+)', res).group(1)
+    if name == 'loader':
+        import re
+        m = re.match(r'(\w+)\(([\w+]*)', res)
+        site = (m.group(1) + ('-' + m.group(2) if m.group(2) else '')) if m else 'loader'
+        r = re.search(r'raised (\w+)', res)
+        return site + '/' + ('raises-' + r.group(1) if r else 'wrong-result')
     if 'raised' in res:
         import re
         m = re.search(r'raised (\w+)', res)
@@ -1036,11 +1177,26 @@ MANIFEST = dict(
           'by the constructor, proved as the boundary); TimeGenerator / LivetimeTimeGenerationMethod hand through to draw_ontimes. The '
           'executable model is compared (bit-exactly where it only passes values through) with Livetime.is_on / '
           'get_uptime_intervals_between / get_livetime_upto / draw_ontimes / get_data_subset / the integrity check on every run, incl. '
-          'error paths; exact-fraction, fresh-vs-used (histories through the setter) and aliasing oracles search the implementation.'),
+          'error paths; exact-fraction, fresh-vs-used (histories through the setter) and aliasing oracles search the implementation. '
+          'Round 7 (Model/LivetimeR7.lean, 23 more theorems): all five raising guards of assert_mjd_intervals_integrity in their order '
+          '(accepts exactly float64 (N,2) ndarrays with non-decreasing elements; which exception when), the constructor at the shape '
+          'constants regenerated from the source holds exactly the rows and they are a valid list, n_uptime_mjd_intervals / time_start / '
+          'time_stop / time_window (contains all on-time; IndexError without rows) / get_integrated_livetime, the sequence forms of is_on '
+          'and get_livetime_upto (scalar in - scalar out), whole-vector draw_ontimes (size 0 never fails), I3Livetime.from_grl_files '
+          '(rows of all files in file order; on-time = union of the runs of all files) and from_I3Dataset (guards in order), get_data_subset '
+          'with both type guards and separate exp / mc masks (empty window: nothing kept, no error), and histories on one object through the '
+          'full setter interleaved with the read-only views (rejected assignment of any class keeps the state; the object always holds a valid '
+          'list; a view at any point answers like a fresh object). Generated/C14.lean carries the shape constants, right= flags, None defaults, '
+          'comparison operators and the order of the raised exception classes of the current source (c14_structure_for_current_source, '
+          'c14_construct_for_current_source, c14_history_r7_sorted_for_current_source). The harness also varies how the Livetime object was '
+          'obtained (fresh / copy / deepcopy / pickle / setter on another object) and loads good-run lists from real .npy files through '
+          'datasets with absolute and root-dir-relative file names.'),
     note=('IEEE rounding is outside the theorems (e.g. lower + y rounding up to the closed upper edge in draw_ontimes); NaN times and '
           'subnormal times are outside the generated domain; numpy.digitize/cumsum are re-implemented in the model and compared on every '
           'run; np.sum pairwise summation of the total live time is compared with a tolerance; the memory layout of the interval array '
-          '(C / Fortran order, strided views, built by from_grl_data) is varied by the harness, the model sees the logical array. Not '
-          'modelled: I3Livetime.from_grl_files / from_I3Dataset (file loading).'),
+          '(C / Fortran order, strided views, built by from_grl_data) is varied by the harness, the model sees the logical array. The '
+          'file loader (create_FileLoader: reading and concatenating the files) and path resolution of Dataset are exercised, not modelled; '
+          'exceptions are compared by class, never by message. Two defects found in round 7 are listed as open findings until their fix '
+          'commits (0768874, c3f6967 on branch agent-C14-r7) are in /repo.'),
     design='DESIGN.md section 4 C14, review.d/C14.md',
     technique='Lean 4 proof (induction over interval lists, refinement of index arithmetic to a specification) + model/implementation correspondence')
